@@ -163,7 +163,8 @@ class OrientedLine:
 
   def __validate_line(self):
     if isinstance(self.line, gfapy.Line):
-      string = self.line.name
+      # (the name of an unnamed line is a placeholder object)
+      string = str(self.line.name)
     elif isinstance(self.line, str):
       string = self.line
     else:
